@@ -20,6 +20,7 @@ From FB.Spec Require Import Prog.
 From FB.Model Require Import Types Monad Builder Persist Build Run Frame.
 From FB.Proofs Require Import FrameLaws RollbackFaultsLaws RollbackFaultsMain RollbackFaults2Main.
 From FB.Proofs Require CacheGenLaws.   (* T1g: the model routines are equal to the translation of the source (Gen/CacheGen.v) *)
+From FB.Proofs Require DriverGenLaws.   (* T1g: _build, _roll_back, _commit, clean, _make_dirs, _make_room, FileBackups = Model/Build.v, Builder.v (Gen/DriverGen.v) *)
 Import ListNotations.
 
 (* a faulted mutating call raises OSError, changes only the call counter *)
